@@ -318,7 +318,7 @@ pub fn pred_atom(input: &str) -> VResult<'_, PredAtom> {
 
 /// `path_quantifier = "{" unsigned [ "," [ unsigned ] ] "}"`
 fn path_quantifier(input: &str) -> VResult<'_, HopRange> {
-    let (input, _) = char('{').parse(input)?;
+    let (input, _) = ws(char('{')).parse(input)?;
     let (input, min) = cut(ws(unsigned_integer)).parse(input)?;
     let (input, comma) = opt(ws(char(','))).parse(input)?;
     let (input, max) = if comma.is_some() {
